@@ -60,7 +60,7 @@ def closed_form_precision_rule(ctx, run, rule, fnames, what):
         for r in res:
             pv = Provenance()
             got = pv.of(r["value"])
-            if any("tensor" in getattr(v_, "tags", ()) for v_ in kw.values()) and got not in (DATA, None):
+            if any("tensor" in getattr(v_, "tags", ()) for v_ in kw.values()) and got in ("default", "fixed"):
                 why = "; ".join(sorted({w_ for _, w_ in pv.leaves})) or "no tensor input determines the dtype"
                 bad.append(f"the result is computed in a {got} dtype, not in the dtype of the inputs ({why})"[:200])
             for t_, v_ in pv.narrowed:
